@@ -40,6 +40,11 @@ type duplexHTTPCall struct {
 	requestBodyReader *io.PipeReader
 	requestBodyWriter *io.PipeWriter
 
+	// onRequestSend, if set, is called once, right before the request is handed
+	// to the HTTP client, on the goroutine that triggers the send. Protocols use
+	// it for headers that depend on the moment of sending.
+	onRequestSend func(*http.Request)
+
 	sendRequestOnce sync.Once
 	responseReady   chan struct{}
 	request         *http.Request
@@ -255,6 +260,9 @@ func (d *duplexHTTPCall) BlockUntilResponseReady() {
 
 func (d *duplexHTTPCall) ensureRequestMade() {
 	d.sendRequestOnce.Do(func() {
+		if d.onRequestSend != nil {
+			d.onRequestSend(d.request)
+		}
 		go d.makeRequest()
 		if d.ctx.Done() != nil {
 			go d.watchContext()
